@@ -9,7 +9,7 @@ import configuration as r_conf
 
 RULE = ('a grammar over the documented keys produces dictionaries with 1-3 connections; starting from a valid one, 0-3 values at connection, auth and protect '
         'level are replaced by: another valid value, missing, wrong type (None, int, float, bool, str, list, dict), out of range, unknown name, IPv6, '
-        'listening / non-listening / loopback / IPv4-mapped local address; a quarter of the dictionaries share list / dict objects between connections as YAML anchors and merge keys do; every odd / unknown value of every key is also applied once as the only change. Oracles: (1) Configuration(...) either returns or raises ConfigurationError (subclass), never '
+        'listening / non-listening / loopback / IPv4-mapped local address; a quarter of the dictionaries share list / dict objects between connections as YAML anchors and merge keys do; every odd / unknown value of every key is also applied once as the only change; a third of the PSKs look like another notation for octets or another YAML type (0x..., base64:, None, true, quoted, control characters), an eighth of the dictionaries use numbers / booleans / null as connection names. Oracles: (1) Configuration(...) either returns or raises ConfigurationError (subclass), never '
         'anything else; (2) when it returns and the independent reader of the documentation can say what the dictionary means, every connection is keyed by '
         '(local, peer) address and equals the reference: IKE transforms (type, id, key length) in listed order with the documented defaults, per protect entry '
         'protocol, ESP/AH transform list (no ENCR for AH, NO_ESN last), selectors as address / port ranges, IP protocol, mode, lifetime, index when given, '
@@ -24,6 +24,10 @@ LISTEN = ['192.0.2.1', '2001:db8::1', '198.51.100.7']
 WRONG = [None, 7, 3.5, True, 'abc', '', [], ['x'], {}, {'a': 1}, -1, 70000, 2 ** 40]
 
 
+LOOKALIKE_SECRETS = ['0x1f2e3d4c5b6a7988', '0xCAFE', '0x', '0X00ff', '0sQUJDRA==', 'base64:QUJDRA==', 'hex:00ff', '0b1010', '0o17', '1f2e3d4c', '12345678', '1e10', 'None', 'null', '~', 'true', 'no',
+                     '"quoted"', "'single'", ' leading and trailing ', 'tab\tinside', 'line\nbreak', 'nul\x00inside', 'päßwörd', '\u00e9\u4e2d', '%41%42', '\\x41\\x42', '@file', '$ENV', 'a' * 300, 'A', '']
+
+
 def base_conn(rng, i):
     v6 = rng.random() < 0.25
     my = '2001:db8::1' if v6 else rng.choice(['192.0.2.1', '198.51.100.7'])
@@ -33,6 +37,9 @@ def base_conn(rng, i):
     ids = rng.choice([('alice@example.org', 'bob.example.org'), ('192.0.2.1', '2001:db8::2'), ('alice.example.org', 'bob@example.org')])
     if auth_kind == 'psk':
         my_auth, peer_auth = {'id': ids[0], 'psk': 'secret-' + str(rng.randrange(10 ** 6))}, {'id': ids[1], 'psk': 'other-' + str(rng.randrange(10 ** 6))}
+        if rng.random() < 0.3:
+            # secrets are TEXT, given octet for octet: also when they look like another notation for octets, like a YAML scalar of another type, or carry odd characters
+            my_auth['psk'], peer_auth['psk'] = rng.sample(LOOKALIKE_SECRETS, 2)
     else:
         my_auth, peer_auth = {'id': ids[0], 'privkey': pa[0]}, {'id': ids[1], 'pubkey': pb[1]}
     c = {'my_addr': my, 'peer_addr': peer, 'my_auth': my_auth, 'peer_auth': peer_auth, 'protect': []}
@@ -265,6 +272,11 @@ def run(ck):
             ck.count('systematic.cases')
         else:
             conf = {f'conn{j}': base_conn(rng, j) for j in range(rng.randrange(1, 4))}
+            if rng.random() < 0.12:
+                # connection names are labels: a YAML file may well use numbers, booleans or null as keys (`1:`, `no:`, `~:`)
+                labels = rng.sample([1, 2024, 0, -1, True, False, None, 3.5, ('a', 1), '', 'backup'], len(conf))
+                conf = {lab: c_ for lab, c_ in zip(labels, conf.values())}
+                ck.count('names.not_all_text')
             shared = share_objects(rng, conf) if rng.random() < 0.25 else None
             muts = mutate(rng, conf) if i % 5 else []
             if shared:
@@ -319,6 +331,7 @@ def verdict(ck):
     ck.floor('protect entries compared', c['compare.protect_entries'], 2000)
     ck.floor('dictionaries with objects shared between connections (YAML anchors)', sum(v for k, v in c.items() if k.startswith('shared.')), 300)
     ck.floor('systematic single-value cases', c['systematic.cases'], 60)
+    ck.floor('dictionaries whose connection names are not all text', c['names.not_all_text'], 300)
     ck.floor('distinct mutated keys', len([k for k in c if k.startswith('mutated.')]), 25)
     ck.floor('every mutated key >= 20 times', min([v for k, v in c.items() if k.startswith('mutated.') and k.count('.') == 2] or [0]), 20)
     return None
